@@ -4,6 +4,7 @@
 #include "vh.h"
 #include "libcellml/component.h"
 #include "libcellml/model.h"
+#include "libcellml/importsource.h"
 #include "libcellml/units.h"
 #include "libcellml/variable.h"
 using namespace libcellml;
@@ -121,5 +122,52 @@ extern "C" void h_unowned()
     bool q = Units::equivalent(u, u);
     NO_UNCAUGHT_AT("Units::equivalent (unowned)");
     vout("d", d); vout("ri", ri); vout("b", b); vout("c", c); vout("f1zero", f1 == 0.0); vout("f2zero", f2 == 0.0); vout("q", q);
+    END();
+}
+
+// imported units: the import source may have no model, a model with the referenced units, or a model WITHOUT them (dangling
+// reference); every query on the imported units and on user units built on them returns normally
+extern "C" void h_imported()
+{
+    auto lib = Model::create("l");
+    auto present = Units::create("p");
+    present->addUnit("second");
+    lib->addUnits(present);
+    auto m = Model::create("m");
+    auto imp = ImportSource::create();
+    imp->setUrl("x");
+    auto d = Units::create("d");
+    d->setImportSource(imp);
+    std::string ref("p");
+    ref[0] = (char)('p' + vin(0, 1)); // "p" exists in the library model, "q" does not
+    d->setImportReference(ref);
+    m->addUnits(d);
+    auto user = Units::create("u");
+    user->addUnit("d", 0, 2.0, 1.0);
+    m->addUnits(user);
+    auto w = Units::create("w");
+    w->addUnit("second");
+    m->addUnits(w);
+    bool hasModel = vin(0, 1);
+    if (hasModel) imp->setModel(lib);
+    bool d1 = d->isDefined();
+    NO_UNCAUGHT_AT("Units::isDefined (imported)");
+    bool d2 = user->isDefined();
+    NO_UNCAUGHT_AT("Units::isDefined (user units on imported units)");
+    bool ri = user->requiresImports();
+    NO_UNCAUGHT_AT("Units::requiresImports (imported)");
+    bool b = d->isBaseUnit();
+    NO_UNCAUGHT_AT("Units::isBaseUnit (imported)");
+    bool c = Units::compatible(user, w);
+    NO_UNCAUGHT_AT("Units::compatible (imported)");
+    double f1 = Units::scalingFactor(user, w);
+    NO_UNCAUGHT_AT("Units::scalingFactor (imported)");
+    double f2 = Units::scalingFactor(user, w, false);
+    NO_UNCAUGHT_AT("Units::scalingFactor without compatibility check (user units on imported units)");
+    double f3 = Units::scalingFactor(d, w, false);
+    NO_UNCAUGHT_AT("Units::scalingFactor without compatibility check (imported)");
+    bool q = Units::equivalent(user, w);
+    NO_UNCAUGHT_AT("Units::equivalent (imported)");
+    vout("d1", d1); vout("d2", d2); vout("ri", ri); vout("b", b); vout("c", c); vout("f1zero", f1 == 0.0); vout("f2zero", f2 == 0.0); vout("f3zero", f3 == 0.0); vout("q", q);
     END();
 }
